@@ -22,8 +22,124 @@ def nontrivial(sh):
     return P.count_kind(sh, 'decl') >= 2
 
 
+import re, os, subprocess, tempfile, shutil, random
+from .. import impl, sheetcases as SC
+from ..gens import sheet as S
+
+
+def strip_strings(css):
+    return re.sub(r'"[^"]*"|\'[^\']*\'', '""', css)
+
+
+def shape_problem(css, o):
+    """the documented shape of the output for option vector o; returns a description or None"""
+    body = strip_strings(css)
+    if o.get('xminify'):
+        if '\n' in body:
+            return 'xminify output contains a newline'
+    if o.get('minify') or o.get('xminify'):
+        for blk in re.findall(r'\{[^{}]*\}', body):
+            if '\n' in blk:
+                return 'minified output has a newline inside a rule'
+        flat = re.sub(r'\([^)]*\)', '()', body)
+        decls = ''.join(re.findall(r'\{[^{}]*\}', flat))
+        sels = re.sub(r'\{[^{}]*\}', '{}', flat)
+        m = re.search(r'[ \t]+[{};:,]|[{};:,][ \t]+', decls) or re.search(r'[ \t]+[{},>+~]|[{},>+~][ \t]+', sels)
+        if m:
+            return 'minified output has an optional blank next to %r' % m.group(0)
+    else:
+        unit = '\t' if o.get('tabs') else ' ' * int(o.get('spaces', 1))
+        depth = 0
+        for line in body.split('\n'):
+            if not line.strip():
+                continue
+            if line.strip() == '}':
+                depth -= 1
+                if line != unit * depth + '}':
+                    return 'closing brace not at indentation depth %d: %r' % (depth, line)
+                continue
+            if not line.startswith(unit * depth) or line[len(unit * depth):len(unit * depth) + 1] in (' ', '\t'):
+                return 'line not indented by exactly %d units: %r' % (depth, line)
+            if line.rstrip().endswith('{'):
+                depth += 1
+            elif not (line.rstrip().endswith(';') or line.rstrip().endswith(',')):
+                return 'line is neither a selector line nor one declaration: %r' % line
+            elif line.count(';') > 1:
+                return 'two declarations on one line: %r' % line
+    return None
+
+
+def cli_flags(o):
+    f = []
+    if o.get('minify'):
+        f.append('-x')
+    if o.get('xminify'):
+        f.append('-X')
+    if o.get('tabs'):
+        f.append('-t')
+    f += ['-s', str(int(o.get('spaces', 2)))]
+    return f
+
+
 def run(ctx):
-    return P.run_sheets(ctx, 11, FEATURES, 120, 3000, depth=3, all_opts=True, wild=False, nontrivial=nontrivial)
+    out = P.run_sheets(ctx, 11, FEATURES, 120, 3000, depth=3, all_opts=True, wild=False, nontrivial=nontrivial)
+    rng = random.Random(ctx['seed'] * 7 + 11)
+    # ---- shapes of the real output under every option vector, and command line == library
+    n = (6 if ctx['tier'] == 'quick' else 40) * ctx.get('mult', 1)
+    sheets = []
+    while len(sheets) < n:
+        g = S.Gen(rng, ['media', 'amp', 'keyframes', 'fontface'])
+        sh = g.sheet(nunits=rng.choice([1, 2, 3]), depth=2)
+        if S.sel_count(sh) <= 20:
+            sheets.append(S.show(sh, S.Layout(rng)))
+    reqs = [{'kind': 'compile', 'text': t, 'opts': SC.impl_opts(o)} for t in sheets for o in SC.ALL_OPTS]
+    with impl.Pool() as pool:
+        ans = pool.run(reqs)
+    k = 0
+    shapes = 0
+    for t in sheets:
+        for o in SC.ALL_OPTS:
+            a = ans[k]; k += 1
+            if a.get('r') != 'ok':
+                continue
+            shapes += 1
+            why = shape_problem(a['css'], o)
+            if why:
+                out['spec_mismatch'].append({'input': {'text': t, 'opts': o}, 'impl': a, 'spec': 'shape: ' + why, 'classes': []})
+    # command line
+    scratch = tempfile.mkdtemp(prefix='lessverif-c11-')
+    cli = 0
+    try:
+        jobs = []
+        for i, t in enumerate(sheets[: (3 if ctx['tier'] == 'quick' else 12)]):
+            path = os.path.join(scratch, 's%d.less' % i)
+            open(path, 'w').write(t)
+            for o in rng.sample(SC.ALL_OPTS, 8 if ctx['tier'] == 'quick' else 72):
+                jobs.append((t, o, path))
+        env = dict(os.environ, PYTHONPATH=impl.REPO, PYTHONHASHSEED='0', TMPDIR=scratch)
+        import concurrent.futures as cf
+
+        def one(job):
+            t, o, path = job
+            p = subprocess.run([impl.PY, '-W', 'ignore', '-m', 'lesscpy'] + cli_flags(o) + [path], capture_output=True, text=True, env=env, cwd=scratch, timeout=60)
+            return p.stdout
+        with cf.ThreadPoolExecutor(16) as ex:
+            outs = list(ex.map(one, jobs))
+        with impl.Pool() as pool:
+            libs = pool.run([{'kind': 'compile', 'text': t, 'opts': SC.impl_opts(o)} for t, o, _ in jobs])
+        for (t, o, _), so, la in zip(jobs, outs, libs):
+            cli += 1
+            if la.get('r') == 'ok' and so != la['css'] + '\n':
+                out['spec_mismatch'].append({'input': {'text': t, 'opts': o, 'cli_flags': cli_flags(o)}, 'impl': {'cli_stdout': so[:600], 'lib': la['css'][:600]},
+                                             'spec': 'command line output differs from the library call', 'classes': []})
+    finally:
+        shutil.rmtree(scratch, ignore_errors=True)
+    out['evaluations'] += shapes + cli
+    out.setdefault('distribution', {})['option_vectors_shape_checked'] = shapes
+    out['distribution']['cli_runs'] = cli
+    out['exhaustive'] = True
+    out['sweeps'] = {'all_72_option_vectors_per_sheet': len(sheets)}
+    return out
 
 
 replay = P.replay
